@@ -21,7 +21,7 @@ RULE = ("full in-memory stack (real Client -> serializer -> wire -> server Conne
         "submits). non-trivial = a write that reached a driver; distinct = hash(deployment, target, values, fragmentation)")
 ASSUMPTIONS = ["permission (ro) is not enforced by indipy and not demanded", "only properties the client can see are written",
                "for OneOfMany/AtMostOne multi-switch writes any application order of the named switches is accepted"]
-REQUIRED_EVENTS = ["sessions", "writes", "snapshots_compared", "targets_verified", "client_mirror_checks", "stale_pending_probes", "noop_write_probes",
+REQUIRED_EVENTS = ["writes_next_to_a_proxy_device", "sessions", "writes", "snapshots_compared", "targets_verified", "client_mirror_checks", "stale_pending_probes", "noop_write_probes",
                    "writes_Text", "writes_Number", "writes_Switch", "writes_BLOB", "multi_element_writes"]
 
 QUICK_SHARDS = 4
@@ -339,7 +339,87 @@ def snooping_writer_case(ctx, i):
     ctx.case_fast(("snoop-writer", i), nontrivial=True)
 
 
+def proxy_case(ctx, i):
+    """A Proxy device (indi.device.proxy.Proxy: accepts every device name, forwards to a remote server, and has a CONNECTION
+    property of its own) shares the router with a driver that has the standard CONNECTION property too.  A write addressed to one
+    of them changes that one and nothing of the other."""
+    import indi.message as M
+    from indi.device.proxy import Proxy
+    from indi.message import one_parts
+    from indi.routing import Router
+    rng = ctx.rng("proxy", i)
+    case = {"mode": "proxy", "i": i}
+    forwarded, dialled = [], []
+
+    class FakeConnection:
+        def send_message(self, message):
+            forwarded.append(message)
+
+        def close(self):
+            pass
+
+    class FakeTransport:
+        def connect(self, callback, for_blobs=False):
+            dialled.append(1)
+            return FakeConnection()
+
+    router = Router()
+    spec = {"name": "CAMX", "levels": [{"groups": [{"attr": "g", "name": "G", "enabled": True, "vectors": [
+        D.std_vector_spec("common.Connection", "c"),
+        {"attr": "t", "kind": "Text", "name": "NOTE", "label": None, "state": None, "perm": None, "timeout": None, "enabled": True,
+         "elements": [{"attr": "e0", "name": "N0", "label": None, "default": "n", "enabled": True}]}]}]}]}
+    order = rng.random() < 0.5
+    cam = proxy = None
+    for first in ([True, False] if order else [False, True]):
+        if first:
+            cam = D.build(spec)(router=router)
+        else:
+            proxy = type("Remote", (Proxy,), {"name": "REMOTE", "address": "server.invalid"})(router=router)
+            proxy._client = FakeTransport()
+    rec = devmon.RecClient()
+    router.register_client(rec)
+    router.process_message(M.GetProperties(version="1.7"), sender=rec)
+
+    def state():
+        pv = proxy.get_group("general").connection
+        cv = D.vector_of(cam, "g", "c")
+        return ({e.name: e.value for e in cv._elements.values()}, {e.name: e.value for e in pv._elements.values()})
+
+    for step in range(rng.choice([2, 4, 6])):
+        target = rng.choice(["CAMX", "CAMX", "REMOTE"])
+        member = rng.choice(["CONNECT", "DISCONNECT"])
+        before = state()
+        del rec.received[:]
+        nd = len(dialled)
+        try:
+            router.process_message(M.NewSwitchVector(device=target, name="CONNECTION", children=(one_parts.OneSwitch(name=member, value="On"),)), sender=rec)
+        except Exception as e:
+            ctx.violate(f"proxy:write-raises:{type(e).__name__}", f"newSwitchVector CONNECTION.{member}=On to {target} raised {e!r}", case)
+            return
+        after = state()
+        ctx.count("writes_next_to_a_proxy_device")
+        mine, other = (0, 1) if target == "CAMX" else (1, 0)
+        names = ["CAMX", "REMOTE"]
+        if after[mine].get(member) != "On":
+            ctx.violate(f"proxy:target-does-not-hold-sent-value:{names[mine]}", f"{target}.CONNECTION.{member} is {after[mine].get(member)!r} after a write of On", case)
+            return
+        if after[other] != before[other]:
+            ctx.violate(f"proxy:other-device-changed:{names[other]}", f"a write to {target}.CONNECTION changed {names[other]}.CONNECTION from {before[other]} to {after[other]}", case)
+            return
+        stray = [type(m).__name__ for m in rec.received if getattr(m, "device", None) == names[other]]
+        if stray:
+            ctx.violate(f"proxy:other-device-published:{names[other]}", f"a write to {target}.CONNECTION made {names[other]} publish {stray}", case)
+            return
+        if target == "CAMX" and len(dialled) != nd:
+            ctx.violate("proxy:dialled-out-on-a-write-to-another-device", "the proxy opened its remote connection because another device was written", case)
+            return
+    ctx.case(("proxy", i), nontrivial=True)
+
+
 def one_case(ctx, case):
+    if case.get("mode") == "proxy":
+        proxy_case(ctx, case["i"])
+        return
     nw = asyncio.run(session(ctx, case))
     ctx.case({"i": case["i"], "specs": case["specs"], "modes": [case["mode_c2s"], case["mode_s2c"]]}, nontrivial=nw > 0,
              sample={"devices": [(s["name"], [v["name"] + ":" + v["kind"] for _, v in D.vectors_of(s)]) for s in case["specs"]],
@@ -357,6 +437,9 @@ def run(ctx):
     for i in range(400 if not ctx.thorough else 20000):
         if ctx.mine(i):
             snooping_writer_case(ctx, i)
+    for i in range(200 if not ctx.thorough else 5000):
+        if ctx.mine(i):
+            proxy_case(ctx, i)
 
 
 def replay(ctx, case):
